@@ -73,7 +73,7 @@ def make_inputs(config, seed):
     kw = {}
     if config == "obsrange":
         ov = sorted(v for v in obsvals.values())
-        kw["obs_range"] = [ov[1], ov[-2]]
+        kw["obs_range"] = [ov[2], ov[-3]]          # two observations fall below and two above the range
     return [A, B], clim, kw
 
 
